@@ -202,8 +202,8 @@ func (rt *runtime) fromPropertyDescriptor(descriptor property) *object {
 	if descriptor.isDataDescriptor() {
 		obj.defineProperty("value", descriptor.value.(Value), 0o111, false)
 		obj.defineProperty("writable", boolValue(descriptor.writable()), 0o111, false)
-	} else if descriptor.isAccessorDescriptor() {
-		getSet := descriptor.value.(propertyGetSet)
+	} else if getSet, isAccessor := descriptor.value.(propertyGetSet); isAccessor {
+		// an accessor property, also when both get and set are undefined (8.10.4 step 4)
 		get := Value{}
 		if getSet[0] != nil {
 			get = objectValue(getSet[0])
